@@ -124,6 +124,18 @@ func runC14(seed int64, n int, tier string) *Result {
 			}
 			pick := func() types.Value { return boundary14(k, g.R.Intn(7)) }
 			a, b, c = pick(), pick(), pick()
+		case 5: // slices (and maps of them) that differ only in elements whose hashes collide
+			pick := func() types.Value {
+				var es []types.Value
+				for i := 0; i < 1+g.R.Intn(3); i++ {
+					es = append(es, g.CollidingKey())
+				}
+				return types.NewSlice(es...)
+			}
+			a, b, c = pick(), pick(), pick()
+			if g.R.Intn(3) == 0 {
+				a, b = types.NewMap(types.NewString("k"), a), types.NewMap(types.NewString("k"), b)
+			}
 		case 3: // slices that share a stem (a value derived twice from the same value)
 			stem := types.NewSlice(g.Value(0), g.Value(0), g.Value(0)).Append(g.Value(0))
 			a = stem.Append(g.Value(0))
